@@ -11,5 +11,11 @@ done
 # Engine M: native replay binary (dev + release) and the nightly MIR target directory
 ( cd replay && CARGO_TARGET_DIR=../.build/replay cargo build --offline >/dev/null 2>&1; CARGO_TARGET_DIR=../.build/replay cargo build --offline --release >/dev/null 2>&1 )
 cargo +nightly rustc --offline --lib --manifest-path /repo/Cargo.toml --target-dir .build/mir -- -Zunpretty=mir >/dev/null 2>&1
+# Engine M: fill the per-MIR-hash caches (feasible-path scripts + native validation) for the unchanged tree;
+# an edited tree has another MIR hash and recomputes them inside the check
+for p in C18 C05 C15; do
+  VERIF_M_WARM=1 /usr/local/bin/python3-vt mirsym/mworker.py $p quick 0 .build/warm-$p.json >/dev/null 2>&1
+  rm -f .build/warm-$p.json
+done
 echo setup done
 exit 0
